@@ -58,6 +58,11 @@ def graph(n, kind):
             A[0, i] = A[i, 0] = 1
     elif kind == "empty":
         pass
+    elif kind == "forest":
+        #  fewer links than nodes: one link, a short path, isolated rest
+        for i, j in [(0, 1)] + [(k, k + 1) for k in range(3, 3 + n // 4)]:
+            if j < n:
+                A[i, j] = A[j, i] = 1
     elif kind == "mixed":
         for i in range(n):
             for j in range(i + 1, n):
